@@ -25,6 +25,18 @@ def addL (a b : List Nat) : List Nat := List.zipWith (· + ·) a b
 /-- `np.zeros(n)`, `np.ones(n)` as index vectors -/
 def constL (n v : Nat) : List Nat := List.replicate n v
 
+/-- `np.array(cond, dtype=float)` of one element -/
+def ind (b : Bool) : Rat := if b then 1 else 0
+
+/-- `np.array(l >= k, dtype=float)`, `np.array(l < k, dtype=float)` -/
+def geInd (l : List Nat) (k : Nat) : List Rat := l.map fun i => ind (decide (i ≥ k))
+def ltInd (l : List Nat) (k : Nat) : List Rat := l.map fun i => ind (decide (i < k))
+
+/-- element-wise `-a`, `a + b` (equal lengths), `a / 2` on float vectors -/
+def negR (l : List Rat) : List Rat := l.map (fun v => -v)
+def addR (a b : List Rat) : List Rat := List.zipWith (· + ·) a b
+def halfR (l : List Rat) : List Rat := l.map (fun v => v / 2)
+
 /-- normalise a Python slice bound on a sequence of length `n` (step +1): negative counts from the end,
     everything is clipped into `[0, n]` -/
 def normIdx (n : Nat) (k : Int) : Nat :=
